@@ -358,6 +358,7 @@ def run(prog, chk):
     string_mode_automaton(chk, "C15.h", sc)
     line_break_agreement(prog, chk, "C15.i")
     comment_bytes_not_copied(prog, chk, "C15.o")
+    text_only_through_escaper(prog, chk, "C15.p")
     from .. import balance
     balance.check(prog, chk, "C15.l", [f for f in prog.functions.values() if f.file.endswith("Json.cpp") and (f.cls or "").startswith("Json::Private")], "Json::Private")
     chk.rule("C15.j", "MPT: every cursor / line field the tokenizer advances is set again in Private::parse before the first tokenizer call (a Parser is reused across documents)", floor=2)
@@ -642,3 +643,74 @@ def comment_bytes_not_copied(prog, chk, rid):
     if not n:
         # the search result is not copied at all (line breaks re-emitted as literals, or the scan walks byte by byte)
         chk.ok(rid, f, "no byte found by the block-comment search is copied", "%s:%s" % (f.file, f.line), "store scan", nontrivial=False)
+
+
+def text_only_through_escaper(prog, chk, rid):
+    """Whatever text of the value tree reaches the output - string values, member names - has to pass the one function that knows which
+    bytes the tokenizer treats specially.  A shortcut that copies a String of the tree into the output directly (after looking for SOME
+    special bytes) is a second, smaller escape table."""
+    chk.rule(rid, "WHO: in the JSON serialiser a String that comes from the value tree (a key, a string value) is appended to the output only "
+                  "by appendEscapedString; direct appends take literals, indentation and formatted numbers", floor=1)
+    fs = [f for f in prog.functions.values() if f.gname == "Json::Private::appendVariant" and f.blocks]
+    if not fs:
+        raise AnalysisBroken("Json::Private::appendVariant not found")
+    f = fs[0]
+    defs = q.local_defs(f)
+    outp = f.params[-1]["n"]
+    esc = [c for c in q.calls(f) if (f.nodes[c].get("callee") or "").endswith("appendEscapedString")]
+    if not esc:
+        chk.bad(rid, f, "text-not-escaped", "%s:%s" % (f.file, f.line), "appendVariant no longer calls appendEscapedString")
+        return
+
+    def from_tree(x, depth=0):
+        """does this expression designate text of the value tree: key()/toString()/*iterator of the data, through reference locals"""
+        t = q.no_casts(q.xr(f, x, defs))
+        if re.search(r"\.key\(\)", t):
+            return True
+        if re.search(r"(\.|->)toString\(\)", t):
+            # the formatted text of a number is not text of the tree; toString() of a string value is
+            pos_ = f.node_pos(f.strip(x)) or f.node_pos(site[0])
+            cases = [a[2] for a in fin.dominating_atoms(f, pos_) if a[0] == "case"]
+            b_ = pos_[0] if pos_ else None
+            for _ in range(6):      # several labels on one arm: `case intType: case uintType: ...` - the label chain of the arm's first block
+                if b_ is None:
+                    break
+                lab = f.blocks[b_].get("label")
+                while lab is not None and lab >= 0 and f.nodes[lab]["k"] in ("CaseStmt", "DefaultStmt"):
+                    if f.nodes[lab]["k"] == "CaseStmt":
+                        cases.append(f.nodes[lab].get("v"))
+                    nxt = [y for y in f.nodes[lab]["c"] if y >= 0 and f.nodes[y]["k"] in ("CaseStmt", "DefaultStmt")]
+                    lab = nxt[0] if nxt else None
+                if f.blocks[b_].get("label") is not None:
+                    break
+                preds_ = f.preds.get(b_, [])
+                b_ = preds_[0] if len(preds_) == 1 else None
+            return not cases or STRING_TAG in cases
+        n_ = f.nodes[f.strip(x)]
+        if n_["k"] == "DeclRefExpr" and n_["ref"].get("dk") == "local" and depth < 3 and "String" in (n_["ref"].get("t") or ""):
+            ini = q.single_def(f, n_["ref"]["id"], defs)
+            return ini is not None and from_tree(ini, depth + 1)
+        return False
+    n = 0
+    site = [None]
+    STRING_TAG = next((x["ref"].get("v") for x in f.nodes if x["k"] == "DeclRefExpr" and x["ref"].get("dk") == "enumconst" and x["ref"].get("n") == "stringType"), 10)
+    for c in q.calls(f):
+        nd = f.nodes[c]
+        site[0] = c
+        callee = nd.get("callee") or ""
+        if not re.search(r"String::(append|operator\+=|prepend|insert)$", callee):
+            continue
+        o = q.call_object(f, c) if nd["k"] == "CXXMemberCallExpr" else (nd["c"][1] if len(nd["c"]) > 1 else None)
+        if o is None or q.no_casts(f.r(o)) != outp:
+            continue
+        args = q.call_args(f, c) if nd["k"] == "CXXMemberCallExpr" else nd["c"][2:]
+        for a in args:
+            if "String" in (f.nodes[f.strip(a)].get("t") or "") or f.nodes[f.strip(a)]["k"] == "DeclRefExpr":
+                n += 1
+                if from_tree(a):
+                    chk.bad(rid, f, "tree-text-appended-unescaped", f.where(c),
+                            "`%s` copies text of the value tree into the output without appendEscapedString: a line break (or any byte the "
+                            "shortcut's own test does not look for) inside a member name is written raw, the tokenizer drops it and the "
+                            "re-parsed key differs - two keys can collapse into one" % q.no_casts(f.r(c))[:50], evals=1)
+    chk.ok(rid, f, "%d appendEscapedString call(s); %d direct appends of String-valued expressions, none of tree text" % (len(esc), n),
+           "%s:%s" % (f.file, f.line), "callee / origin scan", evals=n + len(esc))
